@@ -112,7 +112,7 @@ def main(repo: Path, gen_dir: Path, update_baseline: bool = False) -> Dict[str, 
         try:
             files, summary = g(repo)
         except Exception as e:  # the tree no longer has the shape the translator reads
-            info["errors"].append(f"{g.__name__}: {type(e).__name__}: {e}")
+            info["errors"].append(f"{g.__module__.rsplit('.', 1)[-1]}.{g.__name__}: {type(e).__name__}: {e}")
             continue
         for name, src in files.items():
             changed = write_if_changed(gen_dir / name, src)
